@@ -2,10 +2,18 @@
 //   c01.message   object-first: QXmppMessage with any subset of its ~34 known extensions, hard string values.
 //                 Oracle: (1) every getter equal after parse(serialize(m)); (2) re-serialisation byte-identical;
 //                 (3) structure lock: element skeleton independent of the string values; (4) well-formed output.
+//   c01.docs      document-first, metamorphic: a value position of a document from the repository's tests is "free text
+//                 for codec K" when two probe tokens full of JID / URI / list punctuation come back verbatim from
+//                 K.parse -> K.serialise; substituting a hard value (markup metacharacters, quotes, non-ASCII, astral,
+//                 TAB/LF/CR in attributes) there must then commute with the codec: same skeleton, the value intact
+//                 wherever the probe appeared, well-formed, and still a fixpoint if the probe document was one.
 //   c01.objects   the same four oracles for every class of the object-first tables (harness/common/objgen_*.h): presence,
 //                 IQ payloads, nonzas ...; typed fields at their type bounds, every optional field present/absent.
 #include "msggen.h"
 #include "objgen_all.h"
+#include "objgen_check.h"
+#include "codec_registry.h"
+#include "xmlmut.h"
 
 using vh::Ctx;
 using vh::Tape;
@@ -63,54 +71,180 @@ VCHECK("c01.message", 900)
     });
 }
 
+// canonical text of `e` with every occurrence of `tok` in attribute values and text replaced by `val`
+static QString substCanonical(const QDomElement &e, const QString &tok, const QString &val, bool sortSiblings)
+{
+    auto sub = [&](QString v) { return v.replace(tok, val); };
+    QString out = QStringLiteral("<{") + e.namespaceURI() + QStringLiteral("}") + (e.localName().isEmpty() ? e.tagName() : e.localName());
+    QStringList attrs;
+    auto am = e.attributes();
+    for (int i = 0; i < am.count(); i++) {
+        QDomAttr a = am.item(i).toAttr();
+        QString n = a.nodeName();
+        if (n == u"xmlns" || n.startsWith(u"xmlns:"))
+            continue;
+        attrs << QStringLiteral(" {") + a.namespaceURI() + QStringLiteral("}") + (a.localName().isEmpty() ? a.name() : a.localName()) + QStringLiteral("=\"") + sub(a.value()).toHtmlEscaped() + QStringLiteral("\"");
+    }
+    attrs.sort();
+    out += attrs.join(QString());
+    out += u'>';
+    QStringList children;
+    QString text;
+    for (QDomNode n = e.firstChild(); !n.isNull(); n = n.nextSibling()) {
+        if (n.isElement()) {
+            if (!text.isEmpty()) {
+                children << QStringLiteral("#text:") + sub(text).toHtmlEscaped();
+                text.clear();
+            }
+            children << substCanonical(n.toElement(), tok, val, sortSiblings);
+        } else if (n.isText() || n.isCDATASection()) {
+            text += n.nodeValue();
+        }
+    }
+    if (!text.isEmpty())
+        children << QStringLiteral("#text:") + sub(text).toHtmlEscaped();
+    if (sortSiblings)
+        children.sort();
+    out += children.join(QString());
+    out += QStringLiteral("</>");
+    return out;
+}
+
+VCHECK("c01.docs", 120)
+{
+    auto &corp = xm::corpus();
+    if (corp.trees.isEmpty()) {
+        c.label("no-seed-documents");
+        return;
+    }
+    const int seed = int(t.u(uint32_t(corp.trees.size())));
+    xm::XNode tree = corp.trees[seed];
+    QVector<xm::XNode *> all;
+    xm::collect(tree, all);
+    if (all.size() > 200)
+        all.resize(200);
+    xm::XNode *target = (t.prob(1, 2) || all.isEmpty()) ? &tree : all[int(t.u(uint32_t(all.size())))];
+    if (target->isText)
+        target = &tree;
+    // value positions of the target's subtree
+    struct Pos {
+        xm::XNode *n;
+        int attr;   // >= 0: attribute index; -1: text child
+        int kid;
+    };
+    std::vector<Pos> pos;
+    {
+        QVector<xm::XNode *> sub;
+        xm::collect(*target, sub);
+        if (!sub.contains(target))
+            sub.push_front(target);
+        for (auto *n : sub) {
+            if (n->isText || pos.size() > 120)
+                continue;
+            for (int i = 0; i < n->attrs.size(); i++)
+                pos.push_back({ n, i, -1 });
+            for (int i = 0; i < n->kids.size(); i++)
+                if (n->kids[i].isText && !n->kids[i].text.trimmed().isEmpty())
+                    pos.push_back({ n, -1, i });
+        }
+    }
+    if (pos.empty()) {
+        c.label("document-without-values");
+        return;
+    }
+    const size_t pi = t.u(uint32_t(pos.size()));
+    const Pos p = pos[pi];
+    const bool isAttr = p.attr >= 0;
+    const QString hard = gen::str(t, isAttr ? unsigned(gen::AttrSafe | gen::CtlWs) : unsigned(gen::TextSafe), 24);
+    const uint32_t untypedPick = t.u(8);
+    auto render = [&](const QString &v) {
+        if (isAttr)
+            p.n->attrs[p.attr].second = v;
+        else
+            p.n->kids[p.kid].text = v;
+        return xm::toXml(*target);
+    };
+    // probes: JID / URI / list punctuation, mixed case, inner blanks - whatever survives these verbatim is free text
+    static const QString T1 = QStringLiteral("Vt1@k/A a:b=c;d,e.f|g+h"), T2 = QStringLiteral("Vt2@k/B a:b=c;d,e.f|i+j");
+    const QString where = QStringLiteral("<%1>%2").arg(p.n->name, isAttr ? QStringLiteral("@") + p.n->attrs[p.attr].first : QStringLiteral("#text"));
+    const QString e1 = render(T1), e2 = render(T2), eh = render(hard);
+    auto p1 = xu::parseFragment(e1), p2 = xu::parseFragment(e2), ph = xu::parseFragment(eh);
+    if (!p1.ok() || !p2.ok() || !ph.ok()) {
+        c.label("harness:substituted-document-unparsable");
+        return;
+    }
+    c.sample([&] { return "seed#" + std::to_string(seed) + " " + q(where) + " value=" + q(hard) + " doc=" + q(eh.left(240)); });
+    const QByteArray t1u = T1.toUtf8();
+    int transparentFor = 0;
+    int ui = 0;
+    for (const auto &k : codec::all()) {
+        if (!strcmp(k.name, "QXmppExportData") || !strcmp(k.name, "QXmppBitsOfBinaryDataList"))
+            continue;   // a file format / a list parsed from its parent: see c02
+        if (!k.typed) {
+            bool core = !strcmp(k.name, "QXmppMessage") || !strcmp(k.name, "QXmppPresence") || !strcmp(k.name, "QXmppIq") || !strcmp(k.name, "QXmppStanza::Error") ||
+                !strcmp(k.name, "QXmppDataForm") || !strcmp(k.name, "QXmppElement");
+            if (!core && (uint32_t(ui++) % 8) != untypedPick)
+                continue;
+        } else if (!k.accepts(p1.el) || !k.accepts(p2.el)) {
+            continue;
+        }
+        const std::string name = k.name;
+        const QByteArray y1 = k.parseSerialize(p1.el);
+        if (y1.isEmpty() || !y1.contains(t1u))
+            continue;
+        auto d1 = xu::parseFragment(y1);
+        if (!d1.ok())
+            continue;   // several top-level elements or ill-formed probe output: c02's business
+        auto d2 = xu::parseFragment(k.parseSerialize(p2.el));
+        if (!d2.ok() || substCanonical(d1.el, T1, T2, true) != xu::canonical(d2.el, true)) {
+            c.label("position-not-free-text");
+            continue;
+        }
+        if (k.typed && !k.accepts(ph.el)) {
+            c.label("hard-value-changes-type-check");
+            continue;
+        }
+        transparentFor++;
+        c.label("codec:" + name);
+        const std::string ctx = name + " at " + q(where);
+        const QByteArray yh = k.parseSerialize(ph.el);
+        auto report = [&](const char *what) {
+            return std::string(what) + "\n codec " + name + ", position " + q(where) + " of seed#" + std::to_string(seed) + ", value " + q(hard) + "\n input =" + q(eh.left(2000)) + "\n output=" + yh.left(2000).toStdString() +
+                "\n probe output=" + y1.left(2000).toStdString();
+        };
+        QString werr;
+        c.require(xu::wellFormed(QString::fromUtf8(yh), &werr), "c01.docs " + name + " not-well-formed-with-value at " + q(where), [&] { return report("the value makes the output ill-formed"); });
+        auto dh = xu::parseFragment(yh);
+        c.require(dh.ok(), "c01.docs " + name + " not-well-formed-with-value at " + q(where), [&] { return report("the value makes the output unparsable"); });
+        c.require(xu::skeleton(dh.el) == xu::skeleton(d1.el), "c01.docs " + name + " structure-depends-on-value at " + q(where), [&] { return report("the element structure of the output depends on a free-text value"); });
+        c.require(xu::canonical(dh.el, true) == substCanonical(d1.el, T1, hard, true), "c01.docs " + name + " value-not-preserved at " + q(where),
+                  [&] { return report("the probe tokens pass this position verbatim, the hard value does not"); });
+        // (sets such as reaction emojis are written in an order that depends on the values: compared up to sibling order)
+        // fixpoint with the value, judged only where the probe document is a fixpoint (value-independent drift is c02's)
+        if (!k.typed || k.accepts(d1.el)) {
+            auto z1 = xu::parseFragment(k.parseSerialize(d1.el));
+            if (z1.ok() && xu::canonical(z1.el, true) == xu::canonical(d1.el, true) && (!k.typed || k.accepts(dh.el))) {
+                const QByteArray zh = k.parseSerialize(dh.el);
+                auto dz = xu::parseFragment(zh);
+                c.require(dz.ok() && xu::canonical(dz.el, true) == xu::canonical(dh.el, true), "c01.docs " + name + " not-fixpoint-with-value at " + q(where), [&] {
+                    return report("parse-then-serialise changes the library's own output once it carries the value") + "\n second=" + zh.left(2000).toStdString();
+                });
+            }
+        }
+    }
+    if (transparentFor == 0) {
+        c.label("no-codec-treats-position-as-free-text");
+        return;
+    }
+    c.label(isAttr ? "position:attribute" : "position:text");
+    if (gen::hasNonAlnum(hard))
+        c.nontrivial(vh::fnvInt(uint64_t(seed), vh::fnvInt(uint64_t(pi) * 64 + gen::strClass(hard), vh::fnvInt(uint64_t(transparentFor)))));
+}
+
 VCHECK("c01.objects", 500)
 {
     og::registerAll();
-    auto &reg = og::registry();
-    // --param class=<name> restricts the run to one class (triage)
-    static const std::string only = c.params.count("class") ? c.params.at("class") : std::string();
-    size_t k = t.u(uint32_t(reg.size()));
-    if (!only.empty()) {
-        for (size_t i = 0; i < reg.size(); i++)
-            if (only == reg[i].name)
-                k = i;
-    }
-    const auto &e = reg[k];
-    const std::string name = e.name;
-    Tape benignTape = t;
-    msggen::Vals v { t, msggen::Hard };
-    og::Outcome o;
-    e.run(v, o);
-    c.label("class:" + name);
-    c.sample([&] { return name + " xml=" + o.xml.left(300).toStdString(); });
-    if (o.xml.isEmpty()) {
-        c.label("empty-output");
-        return;
-    }
-    c.nontrivial(vh::fnv(o.before.join(QChar(0x1e)).toUtf8(), vh::fnv(QByteArray(e.name))));
-    if (v.sawHard)
-        c.label("hard-string");
-    // (4) well-formed
-    QString werr;
-    c.require(xu::wellFormed(QString::fromUtf8(o.xml), &werr), "c01.objects " + name + " not-well-formed", [&] { return name + ": output is not well-formed (" + q(werr) + "): " + o.xml.toStdString(); });
-    // the class's own parser must admit the class's own output
-    c.require(o.reparsed, "c01.objects " + name + " own-output-rejected", [&] { return name + ": the class's parser rejects (or cannot reach) what its serialiser wrote: " + o.xml.toStdString(); });
-    // (1) getters
-    c.require(o.before == o.after, "c01.objects " + name + " field-lost " + q(msggen::firstDifferenceKey(o.before, o.after)), [&] {
-        return name + ": getter differs after parse(serialize(x)): " + q(msggen::firstDifference(o.before, o.after)) + "\n xml=" + o.xml.toStdString();
-    });
-    // (2) re-serialise, up to sibling order
-    auto p = xu::parseFragment(o.xml), p2 = xu::parseFragment(o.xml2);
-    c.require(p2.ok() && xu::canonical(p2.el, true) == xu::canonical(p.el, true), "c01.objects " + name + " reserialize-differs",
-              [&] { return name + ": serialize(parse(serialize(x))) differs\n first =" + o.xml.toStdString() + "\n second=" + o.xml2.toStdString(); });
-    // (3) structure lock against the benign twin (same tape, every free-text value replaced by a short marker)
-    msggen::Vals vb { benignTape, msggen::Benign };
-    og::Outcome ob;
-    e.run(vb, ob);
-    auto pb = xu::parseFragment(ob.xml);
-    c.require(pb.ok() && xu::skeleton(p.el) == xu::skeleton(pb.el), "c01.objects " + name + " structure-depends-on-values", [&] {
-        return name + ": element structure changes with field values (markup injection or value-dependent loss)\n hard  =" + o.xml.toStdString() + "\n benign=" + ob.xml.toStdString();
-    });
+    og::runObjectCheck(t, c);
 }
 
 VH_MAIN()
